@@ -154,7 +154,7 @@ def graph_grammars(tier, seed):
     return out
 
 
-def resolve_mechanism(tier, seed, v, corrupt=None, env=None, limit=None):
+def resolve_mechanism(tier, seed, v, corrupt=None, env=None, limit=None, corpus_cases=()):
     """Resolve.tla / ResolveTrace.tla: (i) trace validation - the steps the instrumented get_nonterminals_resolution_order reported
     (hook events ro_*, feature `verif`) are a behaviour of the model whose constants are the GENERATOR's dependency graph, and the
     verdict of validation is the one the model ends in (cycle error iff the graph is cyclic: a C08 verdict, confirmed with the real
@@ -178,6 +178,22 @@ def resolve_mechanism(tier, seed, v, corrupt=None, env=None, limit=None):
                 graph_differs += 1
             evs = evs[1:]
         tcases.append({"id": c["id"], "graph": c["graph"], "events": evs, "verdict": c["_verdict"]})
+    # the steps the search takes on the check's own corpus (planted mistakes of every class, shell-specific definitions): here the
+    # model's constants are the graph the code reports, so only the steps and the model's invariants are judged, not the verdict
+    ncorpus = 0
+    if corpus_cases:
+        pick = list(corpus_cases)[::max(1, len(corpus_cases) // (300 if tier == "quick" else 3000))]
+        rec2 = core.record("order", [{"id": k, "usage": c["usage"], "shell": c["shell"]} for k, c in enumerate(pick)])
+        for c, r in zip(pick, rec2):
+            evs = r["obs"].get("events", [])
+            if not evs or evs[0].get("ev") != "ro_init" or len(evs) > 200:
+                continue
+            o = r["obs"]
+            cid = 100000 + ncorpus
+            ncorpus += 1
+            cases.append({"id": cid, "usage": c["usage"], "shell": c["shell"], "graph": evs[0]["graph"], "_corpus": True, "_verdict": "n/a", "_msg": ""})
+            tcases.append({"id": cid, "graph": evs[0]["graph"], "events": evs[1:],
+                           "verdict": "cycle" if o.get("verdict") == "error" and o.get("err", {}).get("class") == "cycle" else "ok"})
     if corrupt:
         corrupt(tcases)
     res = core.run_tlc_sharded("ResolveTrace.tla", "ResolveTrace.cfg", tcases, shards=8, workers=1, prefix="resolvetrace", timeout=3000, env=env)
@@ -191,14 +207,17 @@ def resolve_mechanism(tier, seed, v, corrupt=None, env=None, limit=None):
     if len(expect) < len(cases):
         raise core.ToolError("ResolveTrace: %d of %d cases evaluated" % (len(expect), len(cases)))
     rejected = [c["id"] for c in tcases if c["id"] not in acc]
+    tbyid = {c["id"]: c for c in tcases}
     for i in rejected[:3]:
         core.log("MODEL-DRIFT (not a verdict): the recorded steps of get_nonterminals_resolution_order for %r are not a behaviour of Resolve.tla (matched %d of %d events)" % (
-            byid[i]["usage"].replace("\n", " "), at.get(i, 0), len(tcases[i - 1]["events"])))
+            byid[i]["usage"].replace("\n", " "), at.get(i, 0), len(tbyid[i]["events"])))
     for i, what in mech[:3]:
         core.log("MODEL-DRIFT (not a verdict): `%s` of Resolve.tla broken on the recorded steps for %r" % (what, byid[i]["usage"].replace("\n", " ")))
     # verdicts: cyclic (per Resolve.tla's schedule-free reference on the generator's graph) <=> cycle error, else accepted
     nver = 0
     for c in cases:
+        if c.get("_corpus"):
+            continue
         want = "cycle" if expect[c["id"]] == "cyclic" else "ok"
         if c["_verdict"] == want:
             nver += 1
@@ -223,7 +242,7 @@ def resolve_mechanism(tier, seed, v, corrupt=None, env=None, limit=None):
             c["usage"].strip().replace("\n", " "), c["shell"], expect[c["id"]], "exit 1 with `cycle`" if want == "cycle" else "exit 0",
             p.returncode, cls, " stderr: " + p.stderr[:160].replace("\n", " | ") if crash else "")
         v.mismatch(sig, what, {"usage": c["usage"], "shell": c["shell"], "expected": sig["expected"], "observed": {"exit": p.returncode, "class": cls}})
-    out = {"graph_grammars": len(cases), "cyclic": sum(1 for x in expect.values() if x == "cyclic"), "verdicts_as_the_model_says": nver,
+    out = {"graph_grammars": len(cases) - ncorpus, "corpus_grammars_traced": ncorpus, "cyclic": sum(1 for x in expect.values() if x == "cyclic"), "verdicts_as_the_model_says": nver,
            "traces": len(tcases), "traces_accepted": len(acc), "traces_not_a_behaviour": len(rejected), "trace_events": sum(len(c["events"]) for c in tcases),
            "traces_ending_in_cycle": sum(1 for a in acc.values() if a[0] == "cycle"), "traces_ending_in_done": sum(1 for a in acc.values() if a[0] == "done"),
            "reported_graph_differs_from_generators": graph_differs, "invariant_reports_on_traces": len(mech), "rejected_ids": rejected[:10],
@@ -339,7 +358,7 @@ def run(tier):
             c["usage"].strip().replace("\n", " "), c["shell"], "exit 0" if not d["expected"] else "exit 1 with one of %s" % sorted(d["expected"]),
             d["exit"], d["class"], d["libclass"], " stderr: " + o.get("stderr", "")[:160].replace("\n", " | ") if d["kind"] == "crash" else "")
         v.mismatch(sig, what, {"usage": c["usage"], "shell": c["shell"], "expected": sorted(d["expected"]), "observed": {"exit": d["exit"], "class": d["class"]}})
-    mechanism = resolve_mechanism(tier, seed, v)
+    mechanism = resolve_mechanism(tier, seed, v, corpus_cases=cases)
     val = res.tagged("VALIDATED")
     nval, nskip, ndoubt = len(val), len(res.tagged("SKIPPED")), len(res.tagged("ORACLE-DOUBT"))
     if nval + nskip + ndoubt < len(cases) or nval < len(cases) // 2:
